@@ -114,6 +114,22 @@ PROPS["C09"] = {
     "technique": "Lean 4 proofs of bit-mask arithmetic for arbitrary-length bitsets and of the requirement decision logic; model=code by IR mask comparison and differential runs against regenerated servers with scripted scheme outcomes",
 }
 
+PROPS["C03"] = {
+    "lean_modules": ["Ogen.Props.C03"],
+    "suites": ["c03"],
+    "timeout": 3600,
+    "trusted_base": [
+        KERNEL, HARNESS, GENCHECK,
+        "statements in lean/Ogen/Props/C03.lean; models ValidateM.intValidate (BitVec 64, literal incl. the v *= -1 wrap and Go's divide-by-zero panic), ArrVal.validateLength/uniqueItems, IntBounds.propsOk, Sec.missingAny — hand-written from validate/*.go and the generated required-mask loop; tie = line-by-line comparison with the real validate.Int/Array/String/Object/UniqueItems on boundary grids",
+        "the reference validator of the harness (cmd/corr/schema.go: JSON Schema draft 4 + nullable for the keyword fragment, exact rationals) is the oracle for regenerated servers; it is independent of ogen but itself only tested",
+        "NOT proved: schema → validator translation (gen/ir/validation.go), needValidation, Opt/Nil boxing, additionalProperties handling, sum types, formats, float validation (big.Rat on doubles), regex matching",
+    ],
+    "assumptions": ["integers are within the width of their format", "instances avoid 1.0-style integers and float-inexact multipleOf (readings on which validators legitimately differ)"],
+    "level_text": "partial: the leaf validators and the required-mask arithmetic are Lean theorems for every value (int_validate_iff on all of int64, length_iff, props_iff, unique_iff, required_mask_iff); 'accept iff valid' for whole schemas is decided on every run by posting schema-directed valid instances, single-keyword boundary mutants and random JSON to regenerated servers and comparing (status, handler-invoked) with an independent reference validator — a correspondence, not a theorem",
+    "level_note": "trusted: Lean kernel, statements, leaf models + their differential tie, the harness' reference validator and schema/instance generators, gencheck pipeline.",
+    "technique": "Lean 4 proofs of the runtime validators on BitVec 64/Int and of the required bit mask; generated decode-and-validate path checked differentially against an independent reference validator on regenerated servers",
+}
+
 # properties not claimed, with the reason (kept current; see DESIGN.md §7)
 NOT_CLAIMED = {
     "C10": "not applicable: determinism/race-freedom of generation lives in Go map iteration order, goroutine scheduling and the memory model; no executable model separate from the runtime can express it (DESIGN.md §7)",
